@@ -772,6 +772,8 @@ def comprehension(ex, st, node):
                 dom.n, lambda i: z3.substitute(n_t, (k, I(i))),
                 lambda i, j: z3.substitute(body, (k, I(i)), (probe_j, I(j))),
                 de.k), 'comp')
+        if isinstance(de, (tuple, Opaque)):
+            return Opaque('list')
         raise OutsideSubset('comprehension element {!r}'.format(de), node)
     finally:
         st.env = saved
@@ -792,7 +794,11 @@ def call(ex, st, node):
                 args.append(Opaque('*args'))
                 continue
             if not isinstance(v, (list, tuple)):
-                raise OutsideSubset('star-args of {!r}'.format(v), node)
+                # unpacking of an abstract sequence: handed to the model of the
+                # callee through the ghost state
+                st.ghost['star_value'] = v
+                args.append(Opaque('*args'))
+                continue
             args.extend(v)
         else:
             args.append(ex.eval(a, st))
